@@ -303,7 +303,9 @@ def main(seed, tier):
         status="discharged" if not deny else "refuted", backend="pyvc call log (all symbolic paths)", secs=0.0,
         witness={"calls": deny} if deny else None,
         detail="" if not deny else f"replayed natively: the symbolic run executed {deny}")]))
-    res, err = hashseed_runs(sorted(tab)[:: (2 if tier == "thorough" else 6)] + ["PL", "SI", "DE", "GB", ""])
+    from schwifty import registry as _reg
+    with_banks = sorted(_reg.get("country"))
+    res, err = hashseed_runs(sorted(set(sorted(tab)[:: (2 if tier == "thorough" else 6)] + with_banks + [""])))
     extra = []
     if res is None:
         results.append(dict(task="hash seed runs", obligations=[], functions={}, files={}, paths=0,
